@@ -142,6 +142,15 @@ def check_observation(res, check, sig, env, obs, space, common, graph=None, padd
     if ei.shape[1] > k and not np.all(ei[:, k:] == -1):
         res.violation(check, "edge-padding-not-at-end-or-not-minus-one", sig=sig, **common)
         ok = False
+    # feature matrices: rows beyond the current instance's entities are padding (-1)
+    inst = g.instance
+    sizes = {"operations": inst.num_operations, "machines": inst.num_machines, "jobs": inst.num_jobs}
+    for key, n_ent in sizes.items():
+        if key in obs:
+            mat = np.asarray(obs[key])
+            if mat.shape[0] > n_ent and not np.all(mat[n_ent:] == -1):
+                res.violation(check, "feature-padding-not-minus-one", sig=sig, key=key, rows=mat[n_ent:].tolist(), **common)
+                ok = False
     return ok
 
 
@@ -229,7 +238,7 @@ MULTI = [
     # (generator kwargs, builder, updater kwargs/subclass, reward, filter names)
     (dict(num_jobs=(2, 3), num_machines=2, duration_range=(1, 1)), "agent_task", "default", "makespan", ("dominated_operations",)),
     (dict(num_jobs=(2, 3), num_machines=(2, 3), duration_range=(1, 1)), "agent_task", "no-machine-removal", "idle", ("dominated_operations",)),
-    (dict(num_jobs=2, num_machines=(2, 3), duration_range=(1, 1)), "complete_agent_task", "subclass", "makespan", ("non_idle_machines",)),
+    (dict(num_jobs=2, num_machines=(2, 3), duration_range=(1, 1)), "complete_agent_task", "subclass", "makespan", ()),
     (dict(num_jobs=(2, 3), num_machines=2, duration_range=(1, 1)), "disjunctive", "no-job-removal", "makespan", ("dominated_operations",)),
     (dict(num_jobs=(2, 3), num_machines=2, duration_range=(1, 1), allow_recirculation=True), "disjunctive", "default", "makespan", ("dominated_operations",)),
     (dict(num_jobs=2, num_machines=2, duration_range=(1, 1), machines_per_operation=(1, 2)), "agent_task", "default", "idle", ("dominated_operations",)),
